@@ -44,6 +44,13 @@ def run (o : SnowObj S H) (r : RunOut S H) : SnowObj S H :=
       | some h => some h
       | none => o.hist }
 
+/-- `run()` with the proposed repair (fixes/K6.diff): the outputs of an earlier run are cleared
+before the model function is called -/
+def runFixed (_o : SnowObj S H) (r : RunOut S H) : SnowObj S H :=
+  { status := if r.exc.isNone then 1 else 0,
+    stats := r.stats,
+    hist := r.hist }
+
 /-- `.results` (`Except.error` = the exception class the accessor raises) -/
 def results (o : SnowObj S H) : Except String (Option S) :=
   if o.status = 1 then .ok o.stats else .error "AssertionError"
